@@ -130,7 +130,11 @@ def check(ctx):
             ctx.ob("C19.R1", ci, f"{nm}: code 1 is the divergence flag",
                    "divergent" in book.get(1, "").lower())
     mhbook = repo.module("liesel.goose.mh").assigns.get("mh_error_book")
-    mb = ast.literal_eval(mhbook) if mhbook is not None else {}
+    from .common import literal_of
+    try:
+        mb = literal_of(repo, repo.module("liesel.goose.mh"), mhbook) if mhbook is not None else {}
+    except ValueError:
+        mb = {}
     same = [nm for nm, ci in kernels.items() if 90 in (_book(ci) or {})
             and (_book(ci) or {}).get(90) == mb.get(90)]
     ctx.ob("C19.R1", repo.func(MH), "the MH-type kernels document code 90 with mh_step's "
